@@ -170,6 +170,15 @@ int __wrap_regexec(const regex_t *preg, const char *string, size_t nmatch, regma
 static int h_nopipe;
 static char h_logpath[512];
 static long h_logpos;
+/* a regex compiled while h_next_rx_id is set is registered under that id */
+static char h_next_rx_id[64];
+int __real_regcomp(regex_t *preg, const char *regex, int cflags);
+int __wrap_regcomp(regex_t *preg, const char *regex, int cflags) {
+    int r = __real_regcomp(preg, regex, cflags);
+    if (!r && h_next_rx_id[0]) { rx_register(preg, "%s", h_next_rx_id); h_next_rx_id[0] = 0; }
+    return r;
+}
+
 static char *rewrite_names[64];
 static int nrewrite_names = 0;
 
